@@ -69,6 +69,20 @@ UNIT = "cm"
 
 
 # ---------------------------------------------------------------------------------------------- alphabet
+# backslash followed by each character that is special in some back-end's quoting rules (bash double quotes: \ " $ `;
+# C/C++/Rust/JSON/TOML/YAML escapes: \ " n t 0 x u '; DIP: \" \'), backslash at the end, command / arithmetic
+# substitution, a control character.  (value, DIP literal or None = single-quoted, usable as array element)
+# DIP decodes \" and \' inside any value and ends a quoted value at an escaped quote, so a trailing backslash is
+# written unquoted and backslash+quote with a doubled backslash; neither can be an array element (parser matters).
+ESCAPES = [("\\\\server\\data", None, True), ("^cost\\$[0-9]+", None, True), ("C:\\sim\\out\\", "C:\\sim\\out\\", False),
+           ("a\\\"b", "'a\\\\\"b'", False), ("a\\'b", "\"a\\\\'b\"", False), ("a\\`b", None, True), ("a\\nb", None, True), ("a\\tb", None, True),
+           ("\\x41", None, True), ("\\u0041", None, True), ("\\0", None, True), ("\\", "\\", False),
+           ("\\\\", "\\\\", False), ("a\\\\", "a\\\\", False), ("$(echo x)", None, True), ("`echo x`", None, True),
+           ("$((1+1))", None, True), ("\\{z}", None, True), ("a\\ b", None, True), ("%\\n", None, True),
+           ("a\\$b\\`c\\\\d", None, True), ("a\tb", None, True)]
+# non-ASCII text: Latin-1, other BMP scripts and symbols, astral plane (compared as UTF-8 bytes after read-back)
+UNICODE = ["Gr\u00f6\u00dfe in \u00b5m", "\u00c5ngstr\u00f6m", "\u00e9", "Dvo\u0159\u00e1k", "\u03bb=5", "\u6e29\u5ea6",
+           "\u20ac", "\U0001f600", "x\U0001d6fcy", "na\u00efve, caf\u00e9", "a\u00a0b"]
 # string contents that coincide with what the exporters / target languages use as separators, delimiters, comment or
 # expansion characters (comma+blank joins array literals; ; [ ] ( ) = : # ' { } $ ` \ % & ! * | - and blanks at either
 # end).  All of them can be written in DIP (single-quoted scalar, JSON element) - probed on the parser.
@@ -195,6 +209,19 @@ def base_params():
         add("str", [2, 3], _nest([DELIMS[(off + i) % L] for i in range(6)], [2, 3]), None, "delim-r2")
     for off in range(0, L, 8):
         add("str", [2, 2, 2], _nest([DELIMS[(off + i) % L] for i in range(8)], [2, 2, 2]), None, "delim-r3")
+    for fam, pool, lits in (("escape", [e[0] for e in ESCAPES if e[2]], None), ("unicode", UNICODE, None)):
+        src = ESCAPES if fam == "escape" else [(u, None, True) for u in UNICODE]
+        for v, lit, _ in src:
+            add("str", None, v, None, fam + "-r0")
+            if lit is not None:
+                out[-1]["dip"] = lit
+        L = len(pool)
+        for d in pool:
+            add("str", [3], ["x", d, "yz"], None, fam + "-r1")
+        for off in range(0, L, 6):
+            add("str", [2, 3], _nest([pool[(off + i) % L] for i in range(6)], [2, 3]), None, fam + "-r2")
+        for off in range(0, L, 8):
+            add("str", [2, 2, 2], _nest([pool[(off + i) % L] for i in range(8)], [2, 2, 2]), None, fam + "-r3")
     for p in out:
         if p["shape"] and len(p["shape"]) >= 2:
             f = _flat(p["value"])
@@ -232,10 +259,12 @@ def dip_source(specs):
         v, c = s["value"], _cls(s["dtype"])
         if v is None:
             txt = "none"
+        elif s.get("dip") is not None:
+            txt = s["dip"]
         elif s["shape"] is None:
             txt = ("true" if v else "false") if c == "bool" else ("'" + v + "'") if c == "str" else repr(v)
         else:
-            txt = json.dumps(v, separators=(",", ":"))
+            txt = json.dumps(v, separators=(",", ":"), ensure_ascii=False)
             if c == "str":
                 txt = "'" + txt + "'"
         line = "%s %s%s = %s" % (s["name"], s["dtype"], dims, txt)
@@ -590,10 +619,22 @@ def tags_of(backend, opt, spec, mode, sel=None):
             t.append("has-space")
         if len(set(len(x) for x in flat)) > 1:
             t.append("unequal-length")
-        special = sorted(set(ch for x in flat for ch in x if not ch.isalnum() and ch not in ' "'))
+        special = sorted(set(ch for x in flat for ch in x if 32 < ord(ch) < 127 and not ch.isalnum() and ch != '"'))
         if special:
             t.append("has-delimiter")
             t.extend("char=" + ch for ch in special)
+        if any("\\" in x for x in flat):
+            t.append("has-backslash")
+        if any(x.endswith("\\") for x in flat):
+            t.append("has-trailing-backslash")
+        if any("\\x" in repr(x) for x in flat):
+            t.append("repr-has-backslash-x")       # what the encoder of the `toml` package trips over
+        if any(ord(ch) > 127 for x in flat for ch in x):
+            t.append("non-ascii")
+            if any(ord(ch) > 0xFFFF for x in flat for ch in x):
+                t.append("astral")
+        if any(ord(ch) < 32 for x in flat for ch in x):
+            t.append("control-char")
         if any(", " in x for x in flat):
             t.append("has-comma-blank")
         if any(x.startswith(" ") for x in flat):
@@ -717,7 +758,9 @@ def run_batch(backend, opt, specs, sel=None):
             extra = []
             if backend in ("bash", "json", "yaml", "toml", "dip"):
                 extra = sorted(set(obs) - set(it.name for it in items))
-        info = dict(programs=nprog, compared=ncmp, extra=extra, twice_differs=text2 != text, symbols=len(items))
+        differs = sum(1 for s, _, _ in plan if exps[s["id"]]["flat"] != (_flat(s["value"]) if s["value"] is not None else None))
+        info = dict(programs=nprog, compared=ncmp, extra=extra, twice_differs=text2 != text, symbols=len(items),
+                    env_differs=differs)
         return ("ok", results, info)
     finally:
         isolation.tables_restore()
@@ -742,6 +785,9 @@ def check_batch(backend, opt, specs, sh, sel=None, top=True):
         sh.add_extra("programs", info["programs"])
         sh.add_extra("disagreements_checked", info["compared"])
         sh.count("%s:read-back-ok" % backend)
+        if info["env_differs"]:
+            # the parser did not deliver the value the alphabet intended (parser matter; the oracle follows the env)
+            sh.count("env-differs-from-spec", info["env_differs"])
         if info["twice_differs"]:
             sh.count("%s:second-parse-text-differs" % backend)
         for s in specs:
